@@ -1,6 +1,6 @@
 (* C08 — partial-axis reductions and batch dimensions are independent slices. *)
 From Coq Require Import ZArith String List Bool.
-From Flox Require Import ListX Val Agg Spec Pipeline PipelineLaw Binning BinningLaw C08Proofs NdShape NdShapeLaw C08NdProofs.
+From Flox Require Import ListX Val Agg Spec Pipeline PipelineLaw Binning BinningLaw C08Proofs NdShape NdShapeLaw C08NdProofs NdBatch.
 Import ListNotations.
 Open Scope Z_scope.
 
@@ -80,7 +80,22 @@ Theorem C08_partial_axis_reduction_is_slicewise :
     = vals_of g (slice Z 0 axis c ki) (slice xval dv axis a ki).
 Proof. exact partial_axis_slicewise. Qed.
 
+(* BATCH DIMENSIONS.  The labels cover only the trailing dimensions s of a value array of shape lead ++ s; flox moves the
+   value array with the label axes shifted by |lead| (groupby_reduce: `-array.ndim + ax + by_.ndim`).  For EVERY leading index
+   li the part of the plumbed value array that belongs to li is exactly the plumbed sub-array a[li]: the result for a stack of
+   arrays is the stack of the results (with the previous theorem applied to each a[li]). *)
+Theorem C08_leading_dimensions_are_batch :
+  forall (A : Type) (dflt : A) lead s (a : nd A) axis li ki ri,
+    shape a = lead ++ s -> length li = length lead -> in_range lead li ->
+    NoDup axis -> (forall ax, In ax axis -> (ax < length s)%nat) ->
+    in_range (perm_shape (kept_axes (length s) axis) s) ki ->
+    in_range (perm_shape axis s) ri ->
+    get A dflt (plumb A dflt (map (Nat.add (length lead)) axis) a) ((li ++ ki) ++ [ravel (perm_shape axis s) ri])
+    = get A dflt (plumb A dflt axis (sub A lead s a li)) (ki ++ [ravel (perm_shape axis s) ri]).
+Proof. exact plumb_batch. Qed.
+
 Print Assumptions C08_offset_separates_rows.
+Print Assumptions C08_leading_dimensions_are_batch.
 Print Assumptions C08_plumbing_moves_each_element_where_it_belongs.
 Print Assumptions C08_unperm_places_components.
 Print Assumptions C08_move_order_is_a_permutation.
